@@ -55,6 +55,7 @@ class C05(core.Check):
     assumptions = ('in the generated layouts predefined zones lie inside GLOBAL; zones reaching beyond a redefined GLOBAL have a directed family of their own',
                    'an origin or alignment that parks the cursor outside a zone without placing a byte there is DONT_CARE')
     chunk = 1000
+    no_image_reject = lambda self, c: c['meta'].get('kind') == 'REJECT'
     required_buckets = {b: 3 for b in [
         'boundary:ends-at-zone-end', 'boundary:one-past-zone-end', 'boundary:ends-at-global-end', 'boundary:one-past-global-end',
         'org:zone-offset-0', 'org:zone-offset-last', 'org:zone-offset-past', 'org:bare-after-zone', 'org:GLOBAL-relative',
